@@ -626,12 +626,12 @@ def r12(ctx):
     adds_ = list(f.calls('sigaddset'))
     if not adds_:
         raise AnalysisBroken('_adjust_sigactions_: the registered numbers are not collected (sigaddset)')
-    gk = lambda ev: {a.key() for (a, _e) in f.guards(ev)}
-    extra = gk(acts[0]) - set().union(*[gk(a_) for a_ in adds_])
+    # by control dependence (every branch counts, also one whose condition is a disjunction)
+    extra = sorted(set(f.controlling_blocks(acts[0].blk)) - set().union(*[set(f.controlling_blocks(a_.blk)) for a_ in adds_]))
     ctx.check('R12', 'handler-installed-for-every-registered-number', not extra, acts[0],
               'sigaction runs under the same conditions under which a number is taken into the set of registered signals',
               'the handler is installed only if also %s: a number whose handler signal_del / signal_mod has just reset to SIG_DFL, and which another registration still wants, stays at the default action (its callback never runs again; SIGINT, SIGUSR1 ... kill the process)'
-              % ' and '.join('%s %s %s' % k for k in sorted(extra)))
+              % ' and '.join(estr(f.blocks[x].cond) for x in extra))
     # the highest signal number of this platform: the constant evaluator's value of the bound must reach NSIG
     import signal as _signal
     nsig = getattr(_signal, 'NSIG', None)      # one more than the highest signal number of this platform
